@@ -92,7 +92,9 @@ MCtxs == { [n |-> "alone", a |-> B("10 "), z |-> <<>>],
            [n |-> "then", a |-> B("10 IF X THEN "), z |-> <<>>],
            [n |-> "thenelse", a |-> B("10 IF X THEN "), z |-> B(" ELSE PRINT \"e\";")],
            [n |-> "else", a |-> B("10 IF 0 THEN PRINT \"t\"; ELSE "), z |-> <<>>],
-           [n |-> "thenmore", a |-> B("10 IF X THEN "), z |-> B(":PRINT \"m\";")] }
+           [n |-> "thenmore", a |-> B("10 IF X THEN "), z |-> B(":PRINT \"m\";")],
+           \* an ELSE behind a THEN clause of several statements is a syntax error when reached -- also after a break and CONT
+           [n |-> "thenmoreelse", a |-> B("10 IF X THEN PRINT \"p\";:"), z |-> B(" ELSE PRINT \"e\";")] }
 MatrixKernels == { [name |-> st.n \o "_" \o cx.n,
                     lines |-> << B("5 X=1:DEF F(Y)=Y*2:DATA 1,d,2,e:FOR I=1 TO 2"), cx.a \o st.s \o cx.z,
                                  B("20 PRINT \"|\";X;I:IF I<2 THEN NEXT I"), B("30 END"), B("100 PRINT \"sub\";:RETURN") >>]
